@@ -57,6 +57,34 @@ Theorem C12_env_unsupported_kind :
 Proof. exact env_unsupported. Qed.
 Print Assumptions C12_env_unsupported_kind.
 
+(* the modifiers of a declaration run in the order they are written.  SetCalled written before
+   GetEnv does not shadow a bound variable ... *)
+Theorem C12_env_valid_after_setcalled :
+  forall pf env o v x b,
+    od_setcalled o = Some (b, true) -> od_env o <> [] -> getenv env (od_env o) = v -> v <> [] ->
+    env_scalar (od_kind o) = true -> od_valid o = [] ->
+    conv pf (od_kind o) v = Some x ->
+    initial_state pf env o = mkState x true (od_env o).
+Proof. exact env_valid_after_setcalled. Qed.
+Print Assumptions C12_env_valid_after_setcalled.
+
+(* ... with the variable unset or empty the default stays and Called is what SetCalled says ... *)
+Theorem C12_env_absent_setcalled :
+  forall pf env o b f,
+    od_setcalled o = Some (b, f) -> (od_env o = [] \/ getenv env (od_env o) = []) ->
+    initial_state pf env o = mkState (od_default o) b [].
+Proof. exact env_absent_setcalled. Qed.
+Print Assumptions C12_env_absent_setcalled.
+
+(* ... and SetCalled written after GetEnv overrides only the Called flag *)
+Theorem C12_setcalled_after_env :
+  forall pf env o b,
+    od_setcalled o = Some (b, false) ->
+    o_called (initial_state pf env o) = b /\
+    o_val (initial_state pf env o) = o_val (env_state pf env o (spec_of o) (mkState (od_default o) false [])).
+Proof. exact setcalled_after_env. Qed.
+Print Assumptions C12_setcalled_after_env.
+
 (* the command line wins: `--name=v` stores conv v whatever value / Called / CalledAs the definition
    (default or environment) left in the option *)
 Theorem C12_cli_overrides :
